@@ -51,6 +51,8 @@ class Outcome:
     self.theorems_ok = 0
     self.sql_differs = 0
     self.modes = {}
+    self.stage_judged = {}
+    self.stage_skipped = collections.Counter()
 
 
 def CleanMsg(msg):
@@ -100,6 +102,7 @@ def _Explain(differ, lines, tag, errors):
       for m, ss in enumerate(subsets):
         vlines.append({'id': '%s#%d' % (cid, m), 'prog': base['prog'],
                        'dev': list(ss), 'base': [], 'qmap': [], 'bobs': [],
+                       'stages': [],
                        'obs': [o for o in base['obs']
                                if o['p'] in pending[cid]]})
     v2, _, e2 = semcheck.Validate(vlines, tag + '_dev%d' % size)
@@ -138,6 +141,9 @@ def RunCases(prop, cases, tag=None, max_samples=4, metamorphic=False):
       for p in case['query']:
         D[(case['id'], p)] = ('program_' + res['status'], res)
       continue
+    for st in res.get('stages', []):
+      if 'skipped' in st:
+        out.stage_skipped['%s: %s' % (st['name'], st['skipped'][:40])] += 1
     base_res = None
     if case.get('base_id') and case['base_id'] in by_id:
       base_res = by_id[case['base_id']][1]
@@ -169,6 +175,13 @@ def RunCases(prop, cases, tag=None, max_samples=4, metamorphic=False):
       continue
     if p.startswith('$same:'):
       same[(cid, p[6:])] = ok
+      continue
+    if p.startswith('$stage:'):
+      _, stage, pred = p.split(':', 2)
+      out.stage_judged[stage] = out.stage_judged.get(stage, 0) + 1
+      if not ok:
+        D[(cid, p)] = ('stage_%s_changes_meaning' % stage,
+                       {'stage_rows': exp, 'status': 'ok'})
       continue
     out.preds_judged += 1
     if exp:
@@ -308,6 +321,8 @@ def StandardRun(prop, tier, cases, required, rule, assumptions, tag=None,
       'inherited_from_base': out.inherited,
       'variants_whose_sql_differs_from_base': out.sql_differs,
       'verdict_modes': out.modes,
+      'stage_tables_judged': out.stage_judged,
+      'stages_skipped': dict(out.stage_skipped),
       'exhaustive': False,
   }
   if extra_coverage:
